@@ -30,7 +30,7 @@ theorem setArc_post (n : Int) (s : DrvState) (h : Inv s) :
   have hb := bits_arc _ h.ok.setupRetr _ (arcCode_lt n)
   unfold setArc
   simp only [exec_bind, exec_modD', exec_getD, modShadow_d, SETUP_RETR, h.cached.retrySetup, clampArc_eq]
-  rw [exec_regWrite_nat _ _ _ hb.2 (by decide)]
+  rw [exec_regWrite_nat3 _ _ _ hb.2 (by decide)]
   refine Post.of_steps (by steps) h.wf ?_ rfl ?_
   · rw [spiStep_write_cfg _ _ _ (by wf_of h.wf) (by decide), modShadow_cfg _ _ rfl,
       Radio.w_setupRetr _ _ hb.2, hb.1]
@@ -45,7 +45,7 @@ theorem setArd_post (n : Int) (s : DrvState) (h : Inv s) :
   have hb := bits_ard _ h.ok.setupRetr _ (ardCode_lt n)
   unfold setArd
   exec_simp [h.cached.retrySetup, ardCode_eq]
-  rw [exec_regWrite_nat _ _ _ hb.2 (by decide)]
+  rw [exec_regWrite_nat3 _ _ _ hb.2 (by decide)]
   refine Post.of_steps (by steps) h.wf ?_ rfl ?_
   · rw [spiStep_write_cfg _ _ _ (by wf_of h.wf) (by decide), modShadow_cfg _ _ rfl,
       Radio.w_setupRetr _ _ hb.2, hb.1]
@@ -60,7 +60,7 @@ theorem setAutoRetries_post (d n : Int) (s : DrvState) (h : Inv s) :
   have hb := bits_retr _ (ardCode_lt d) _ (arcCode_lt n)
   unfold setAutoRetries
   exec_simp [ardCode_eq, clampArc_eq]
-  rw [exec_regWrite_nat _ _ _ hb.2 (by decide)]
+  rw [exec_regWrite_nat3 _ _ _ hb.2 (by decide)]
   refine Post.of_steps (by steps) h.wf ?_ rfl ?_
   · rw [spiStep_write_cfg _ _ _ (by wf_of h.wf) (by decide), modShadow_cfg _ _ rfl,
       Radio.w_setupRetr _ _ hb.2, hb.1]
